@@ -35,6 +35,7 @@ class State:
     installed = False
     k_relabel = 2
     recorded = []  # record mode
+    lib_keys = {"partition"}  # node attributes that are the library's own bookkeeping (calibrated at install time)
     depth = 0  # > 0 while inside a monitor's own shadow execution
 
 
@@ -141,7 +142,7 @@ def check_c12_canon(m, result, old_fp):
         return {"what": "bond count changed", "before": m.number_of_edges(), "after": result.number_of_edges(), "input": _graph_json(m)}
 
     def strip(d):
-        return {k: v for k, v in d.items() if k != "partition"}
+        return {k: v for k, v in d.items() if k not in S.lib_keys}
 
     tagged = all(TAG in d for _, d in m.nodes(data=True)) and len({d[TAG] for _, d in m.nodes(data=True)}) == n
     if tagged:
@@ -633,6 +634,20 @@ def _rebind(name, orig, new):
     return k
 
 
+def _calibrate_library_keys():
+    """Node attributes the library ADDS itself to a canonicalized graph (keys absent from the input): its own bookkeeping namespace, like
+    'partition'. Only newly added keys qualify, so a chemically meaningful or user attribute can never be excluded from the comparison."""
+    try:
+        from .oracles.ctab import Atom, Mol
+        g = bridge.graph_direct(Mol([Atom("C", tag=0), Atom("O", tag=1), Atom("H", tag=2)], [(0, 1, 1), (1, 2, 1)]))
+        before = set().union(*(set(d) for _, d in g.nodes(data=True)))
+        r = S.orig["canonicalize_molecule"](g)
+        after = set().union(*(set(d) for _, d in r.nodes(data=True)))
+        return after - before
+    except Exception:
+        return set()
+
+
 def install(ctx, enabled, mode="raise", k_relabel=2, seed=0):
     """Attach the monitors needed for the property ids in `enabled`."""
     import importlib
@@ -645,6 +660,7 @@ def install(ctx, enabled, mode="raise", k_relabel=2, seed=0):
     S.orig = {}
     for name, modname in TARGETS.items():
         S.orig[name] = getattr(importlib.import_module(modname), name)
+    S.lib_keys = {"partition"} | _calibrate_library_keys()
     new = {}
     if S.enabled & {"C01", "C04", "C12", "C13"}:
         new["canonicalize_molecule"] = icontract.snapshot(_canon_snapshot, name="fp")(
